@@ -245,6 +245,15 @@ Example busy_at_every_stage :
   snd (step (run init (start ++ [honest_p3 1 1000 1 2])) (Msg 2 (MReq (mkReq 5 RqOk 9)))) = OStatus StBusy.
 Proof. vm_compute. auto. Qed.
 
+(** Observation (not excluded from the model, outside C02_first_handshake_undisturbed): a handler that lost
+    the marker by the 60 s deadline and is then aborted (its exchange or session dropped) clears the marker of
+    the newer handshake and is counted as a failure; the newer handshake is answered SessionNotFound. *)
+Example stale_abort_disturbs_newer_handshake :
+  let s := run init (start ++ [Advance 61000; Msg 2 (MReq (mkReq 5 RqOk 9)); Abort 1]) in
+  marker s = None /\ option_map w_fail (win s) = Some 1 /\
+  snd (step s (Msg 2 (MP1 (P1Point (PtValid 8))))) = OStatus StSessionNotFound.
+Proof. vm_compute. auto. Qed.
+
 (** The model's own runs satisfy the executable property (sample; the check runs it on every generated case). *)
 Example monitor_accepts_model_run :
   let l := [SOpen true 1 1 32 2000 300; SReq 1 RqOk 0 true; SP1 1 1 PcOwn 0; SP3 1 CcOwn true; SAck 1;
